@@ -1041,6 +1041,51 @@ fn cast_into_memory(
         return Some(memory.into_value(builder, ptr_ty));
     }
 
+    // a variant that goes into an optional or an error union of its own enum
+    // (`return My_Error.Code.(7);` from a `My_Error!i64` function) first becomes its enum.
+    // unwrapping the variant below would turn it into its payload, and an `i32` payload
+    // would then be stored as the *success* value of the error union
+    if let Ty::EnumVariant { enum_uid, .. } = cast_from.as_ref() {
+        let is_own_enum = |ty: &Intern<Ty>| {
+            matches!(ty.absolute_ty(), Ty::Enum { uid, .. } if uid == enum_uid)
+        };
+
+        let own_enum = match cast_to.as_ref() {
+            Ty::Optional { sub_ty } => Some(*sub_ty).filter(is_own_enum),
+            Ty::ErrorUnion {
+                error_ty,
+                payload_ty,
+            } => [*error_ty, *payload_ty].into_iter().find(is_own_enum),
+            _ => None,
+        };
+
+        if let Some(own_enum) = own_enum {
+            let as_enum = cast_into_memory(
+                meta_tys,
+                module,
+                builder,
+                func_writer,
+                ptr_ty,
+                val,
+                cast_from,
+                own_enum,
+                None,
+            );
+
+            return cast_into_memory(
+                meta_tys,
+                module,
+                builder,
+                func_writer,
+                ptr_ty,
+                as_enum,
+                own_enum,
+                cast_to,
+                memory,
+            );
+        }
+    }
+
     // if it wasn't variant -> enum, we unwrap the variant fully and check for other casts
     cast_from = cast_from.absolute_intern_ty(true);
 
